@@ -65,7 +65,7 @@ StrictInputs ==
   \cup {MkIn(<<Spend(P1, Z1, Coin1Amt, L(<<c1, c2>>))>>, f, "mempool") : c1 \in IM, c2 \in IM, f \in ForkFlags}
 
 PermInputs ==
-  {MkIn(<<Spend(P1, Z1, Coin1Amt, L(s))>>, f, "mempool") : s \in CanonTriples, f \in ForkFlags}
+  {MkIn(<<Spend(P1, Z1, Coin1Amt, L(s))>>, f, "mempool") : s \in CanonTriples \cup LockTriplesCanon, f \in ForkFlags}
   \cup {MkIn(<<SpA, SpB(c1), SpC(c2)>>, f, "mempool") : c1 \in XM, c2 \in XM, f \in ForkFlags}
 
 VARIABLES orig, cur, phase
